@@ -362,6 +362,19 @@ func strEq(a, b []value) value {
 	if len(a) != len(b) {
 		return false
 	}
+	for i := range a {
+		_, oa := a[i].(opaque)
+		_, ob := b[i].(opaque)
+		if oa || ob {
+			// comparison with unmodelled formatting output: the outcome is left open (fresh
+			// boolean; both outcomes are explored, counterexamples are confirmed by replay)
+			if curEx != nil {
+				curEx.stats.OpaqueCompares++
+				return curEx.freshInternal("opaque-eq", 0)
+			}
+			abandon("comparison of an opaque cell")
+		}
+	}
 	var conj []*Term
 	for i := range a {
 		ca, oka := a[i].(byte)
